@@ -5,7 +5,11 @@ Gams == {Q(3, 2), R(2)}
 RhoS == {Half, One, R(2)}
 US == {R(-2), Q(-1, 2), Zero, One, R(3)}
 PS == {Half, One, R(3)}
-Init == gam \in Gams /\ W \in [rho : RhoS, u : US, p : PS]
+RhoF == {Q(1, 4), Half, One, R(2), R(4)}
+UF == {R(-3), R(-2), R(-1), Q(-1, 2), Zero, Half, One, R(2), R(3)}
+PF == {Q(1, 4), Half, One, R(3), R(5)}
+CONSTANT Wide
+Init == gam \in Gams /\ W \in (IF Wide THEN [rho : RhoF, u : UF, p : PF] ELSE [rho : RhoS, u : US, p : PS])
 Spec == Init /\ [][UNCHANGED <<gam, W>>]_<<gam, W>>
 InvIdentities == Identities(gam, W)
 (* boundary formulas reduce to the interior state when the parameters are those of the state (C03, model level) *)
